@@ -71,7 +71,8 @@ def strategy_(draw, thorough):
     return {"base": fr0, "opts": opts, "partition_on": pn, "new": nf,
             "pre_remove": draw(st.sampled_from([None, None, 0, 1])),
             "rgo": draw(st.one_of(st.none(), st.integers(1, max(1, nf["n"])))),
-            "via": draw(st.sampled_from(["write", "write", "write_row_groups"])), "k": None}
+            "via": draw(st.sampled_from(["write", "write", "write_row_groups"])), "k": None,
+            "flavour": draw(st.sampled_from(["callables", "fsspec"]))}
 
 
 def strategy(tier):
@@ -81,15 +82,21 @@ def strategy(tier):
 def _append(path, df, case, fs):
     import fastparquet
     pn = list(case["partition_on"])
+    open_with, mkdirs = fs.open_with, fs.mkdirs
+    if case.get("flavour") == "fsspec":
+        # the caller's I/O is a filesystem object (what dask passes): renames and removals are events too
+        from vf.faultfs import as_fsspec
+        lfs = as_fsspec(fs)
+        open_with, mkdirs = lfs.open, (lambda d: lfs.mkdirs(d, exist_ok=True))
     if case["via"] == "write":
         kw = {"append": True, "file_scheme": "hive", "row_group_offsets": case["rgo"],
-              "open_with": fs.open_with, "mkdirs": fs.mkdirs}
+              "open_with": open_with, "mkdirs": mkdirs}
         if pn:
             kw["partition_on"] = pn
         fastparquet.write(path, df, **kw)
     else:
-        pf = fastparquet.ParquetFile(path)
-        pf.write_row_groups(df, row_group_offsets=case["rgo"], open_with=fs.open_with, mkdirs=fs.mkdirs)
+        pf = fastparquet.ParquetFile(path, open_with=open_with) if case.get("flavour") == "fsspec" else fastparquet.ParquetFile(path)
+        pf.write_row_groups(df, row_group_offsets=case["rgo"], open_with=open_with, mkdirs=mkdirs)
 
 
 def _content(path):
@@ -116,7 +123,7 @@ def _data_files(path):
 def run_case(case):
     import fastparquet
     import pandas as pd
-    labels = ["via:" + case["via"]] + (["partitioned"] if case["partition_on"] else [])
+    labels = ["via:" + case["via"], "io:" + case.get("flavour", "callables")] + (["partitioned"] if case["partition_on"] else [])
     opts = case["opts"]
     with common.Scratch() as d:
         basep = os.path.join(d, "base")
@@ -151,6 +158,16 @@ def run_case(case):
         if bad:
             return viol("opens_existing_data_file|fault_free", bad, labels=labels)
         if err is not None:
+            # an append that reports failure without any injected fault: the dataset must still read as before
+            try:
+                now = _content(dry)
+            except Exception as e:
+                return viol("unreadable_after_failed_append|fault_free|" + exc_sig(e),
+                            "append raised %r (no fault injected); a fresh open then failed: %s" % (err, exc_detail(e)), labels=labels)
+            r = _same(now, old)
+            if r:
+                return viol("content_changed_after_failed_append|fault_free|" + r[0],
+                            "append raised %r (no fault injected) and the dataset no longer reads as before: %s" % (err, r[1]), labels=labels)
             return discard("fault_free_append_raised:" + exc_sig(err), labels)
         try:
             new = _content(dry)
@@ -163,6 +180,12 @@ def run_case(case):
             kmeta = next(i for i, (kind, p, info) in enumerate(events, 1) if kind == "open_w" and p.endswith("_metadata"))
         except StopIteration:
             return viol("no_metadata_rewrite", "the append never opened _metadata for writing; events=%r" % [(e[0], os.path.basename(e[1])) for e in events], labels=labels)
+        # parts first, summary last: _metadata is not opened for writing while a new data file is still to be written
+        last_data = max([i for i, (kind, p, info) in enumerate(events, 1) if p.endswith(".parquet")] or [0])
+        if kmeta < last_data:
+            return viol("summary_rewritten_before_parts_complete",
+                        "event %d opens _metadata for writing, event %d still writes data file %r"
+                        % (kmeta, last_data, os.path.basename(events[last_data - 1][1])), labels=labels)
         # first event after which at least one new part file is complete (closed)
         closed_parts = [i for i, (kind, p, info) in enumerate(events, 1) if kind == "close" and p.endswith(".parquet")]
         first_complete = closed_parts[0] if closed_parts else None
